@@ -44,7 +44,7 @@ Proof. vm_compute. reflexivity. Qed.
 Definition exj_dec1 : res (rst * wire) := dec exj_sizes 10 [] exj_t RNil exj_st1.
 Definition exj_st2 : rst := match exj_dec1 with Ok (st, _) => st | Err _ => rst0 end.
 
-Example exj_dec1_ok : exj_dec1 = Ok (exj_st2, exj_rec1).
+Example exj_dec1_ok : dec exj_sizes 10 [] exj_t RNil exj_st1 = Ok (exj_st2, exj_rec1).
 Proof. vm_compute. reflexivity. Qed.
 
 (* (1) *)
@@ -53,7 +53,7 @@ Example ex_dec_alloc_bounded :
   r_alloc exj_st2 <= record_alloc_limit /\ r_alloc exj_st2 = 144.
 Proof.
   assert (H0 : r_alloc exj_st1 <= record_alloc_limit) by (vm_compute; discriminate).
-  destruct (dec_alloc_bounded _ _ _ _ _ _ _ _ exj_dec1_ok) as [H1 H2].
+  destruct (dec_alloc_bounded exj_sizes 10 [] exj_t RNil exj_st1 exj_st2 exj_rec1 exj_dec1_ok) as [H1 H2].
   split; [exact H0|]. split; [exact H1|]. split; [exact (H2 H0)|]. vm_compute. reflexivity.
 Qed.
 
@@ -69,8 +69,8 @@ Proof.
     eapply sub_child; [cbn [wire_children]; left; reflexivity|].
     eapply sub_child; [cbn [wire_children]; right; right; left; reflexivity|].
     eapply sub_child; [cbn [wire_children]; left; reflexivity|]. apply sub_here. }
-  split; [exact (dec_multimap_len_bounded _ _ _ _ _ _ _ _ exj_dec1_ok)|]. split; [exact S|].
-  exact (dec_multimap_nodes_bounded _ _ _ _ _ _ _ _ _ exj_dec1_ok S).
+  split; [exact (dec_multimap_len_bounded exj_sizes 10 [] exj_t RNil exj_st1 exj_st2 exj_rec1 exj_dec1_ok)|]. split; [exact S|].
+  exact (dec_multimap_nodes_bounded exj_sizes 10 [] exj_t RNil exj_st1 exj_st2 exj_rec1 _ exj_dec1_ok S).
 Qed.
 
 (* (2) the counter is the growth of the wire tree: one array, 0 -> 3 elements of 8 + 40 bytes *)
@@ -80,19 +80,21 @@ Example ex_dec_array_len_bounded :
   r_alloc exj_st2 = alloc_after exj_sizes [] exj_t RNil exj_rec1 (r_alloc exj_st1).
 Proof.
   split; [vm_compute; reflexivity|].
-  split; [exact (proj1 (dec_array_len_bounded _ _ _ _ _ _ _ _ exj_dec1_ok))|].
-  exact (dec_alloc_exact _ _ _ _ _ _ _ _ exj_dec1_ok).
+  split; [exact (proj1 (dec_array_len_bounded exj_sizes 10 [] exj_t RNil exj_st1 exj_st2 exj_rec1 exj_dec1_ok))|].
+  exact (dec_alloc_exact exj_sizes 10 [] exj_t RNil exj_st1 exj_st2 exj_rec1 exj_dec1_ok).
 Qed.
 
-(* (4) 105 of the 416 bits/bytes*8 of the frame are consumed by record 1; column 5 (the array
-   lengths) goes from 16 to 13 remaining bits, column 4 (multimap keys) from 4 to 0 bytes *)
+(* (4) record 1 consumes 105 of the 416 units the loaded frame offers ([load_cols] makes every
+   column available both as bits and as bytes, so the 26 data bytes of the frame count twice);
+   column 5 (array lengths) goes from 16 to 12 remaining bits, column 4 (multimap keys) from 4 to 0
+   remaining bytes *)
 Example ex_dec_consumes :
   consumes exj_st1 exj_st2 /\
   rst_input_bits exj_st1 = 416 /\ rst_input_bits exj_st2 = 311 /\
-  length (br_rem (rc_br (rget exj_st1 5))) = 16%nat /\ length (br_rem (rc_br (rget exj_st2 5))) = 13%nat /\
+  length (br_rem (rc_br (rget exj_st1 5))) = 16%nat /\ length (br_rem (rc_br (rget exj_st2 5))) = 12%nat /\
   length (rc_bytes (rget exj_st1 4)) = 4%nat /\ length (rc_bytes (rget exj_st2 4)) = 0%nat.
 Proof.
-  split; [exact (dec_consumes _ _ _ _ _ _ _ _ exj_dec1_ok)|]. vm_compute. repeat split; reflexivity.
+  split; [exact (dec_consumes exj_sizes 10 [] exj_t RNil exj_st1 exj_st2 exj_rec1 exj_dec1_ok)|]. vm_compute. repeat split; reflexivity.
 Qed.
 
 (* ---- both records through [reader_read] *)
@@ -101,9 +103,9 @@ Definition exj_r2 : reader := match exj_read1 with RdRecord r _ => r | _ => exj_
 Definition exj_read2 : read_result := reader_read exj_sizes 10 4 false exj_r2.
 Definition exj_r3 : reader := match exj_read2 with RdRecord r _ => r | _ => exj_r1 end.
 
-Example exj_read1_ok : exj_read1 = RdRecord exj_r2 exj_rec1.
+Example exj_read1_ok : reader_read exj_sizes 10 4 false exj_r1 = RdRecord exj_r2 exj_rec1.
 Proof. vm_compute. reflexivity. Qed.
-Example exj_read2_ok : exj_read2 = RdRecord exj_r3 exj_rec2.
+Example exj_read2_ok : reader_read exj_sizes 10 4 false exj_r2 = RdRecord exj_r3 exj_rec2.
 Proof. vm_compute. reflexivity. Qed.
 
 (* record 2: the outer array grows 3 -> 4 (48 bytes) and the new element is an array 0 -> 1 (48
@@ -115,10 +117,10 @@ Example ex_reader_read_alloc :
   mm_okb exj_rec2 = true /\ consumes (rd_st exj_r2) (rd_st exj_r3).
 Proof.
   split; [vm_compute; reflexivity|]. split; [vm_compute; reflexivity|].
-  split; [exact (proj1 (reader_read_alloc_exact _ _ _ _ _ _ _ exj_read2_ok))|].
-  split; [exact (reader_read_alloc_bounded _ _ _ _ _ _ _ exj_read2_ok)|].
-  split; [exact (reader_read_multimap_bounded _ _ _ _ _ _ _ exj_read2_ok)|].
-  apply (reader_read_consumes _ _ _ _ _ _ _) with (2 := exj_read2_ok). vm_compute. discriminate.
+  split; [exact (proj1 (reader_read_alloc_exact exj_sizes 10 4 false exj_r2 exj_r3 exj_rec2 exj_read2_ok))|].
+  split; [exact (reader_read_alloc_bounded exj_sizes 10 4 false exj_r2 exj_r3 exj_rec2 exj_read2_ok)|].
+  split; [exact (reader_read_multimap_bounded exj_sizes 10 4 false exj_r2 exj_r3 exj_rec2 exj_read2_ok)|].
+  apply (reader_read_consumes exj_sizes 10 4 false exj_r2 exj_r3 exj_rec2); [vm_compute; discriminate|exact exj_read2_ok].
 Qed.
 
 (* (5) the hypotheses of the general family are satisfiable: 1000 zero-size structs from 16 bits *)
@@ -136,3 +138,18 @@ Proof.
   - exists rs'. split; [exact E|]. split; [vm_compute; reflexivity|].
     rewrite wire_size_zero_structs. rewrite N2Nat.id. reflexivity.
 Qed.
+
+(* extra: nesting depth of record 1 is 7 wire levels, the fuel was 10 *)
+Example ex_dec_depth_bounded : (height exj_rec1 <= 2 * 10)%nat /\ height exj_rec1 = 7%nat.
+Proof.
+  split; [exact (dec_depth_bounded exj_sizes 10 [] exj_t RNil exj_st1 exj_st2 exj_rec1 exj_dec1_ok)|].
+  vm_compute. reflexivity.
+Qed.
+
+Print Assumptions ex_dec_alloc_bounded.
+Print Assumptions ex_dec_multimap_len_bounded.
+Print Assumptions ex_dec_array_len_bounded.
+Print Assumptions ex_dec_consumes.
+Print Assumptions ex_reader_read_alloc.
+Print Assumptions ex_dec_zero_size_elems.
+Print Assumptions ex_dec_depth_bounded.
